@@ -146,7 +146,7 @@ def run_job(jd):
         res.update({
             'paths': ex.paths_done, 'aborted': ex.paths_aborted, 'stopped': ex.paths_stopped,
             'decisions': ex.decisions, 'forks': ex.forks, 'sat': ex.n_sat, 'unsat': ex.n_unsat,
-            'unknown': ex.n_unknown, 'solver_time': round(ex.solver_time, 3),
+            'unknown': ex.n_unknown, 'cached': ex.n_cached, 'solver_time': round(ex.solver_time, 3),
             'witness': ex.witness_reached, 'claims': {k: c.as_dict() for k, c in ex.claims.items()},
             'validated': validated[0], 'mismatches': mismatches[:3], 'samples': samples,
             'notes': ex.notes,
